@@ -33,7 +33,7 @@ ASSUME = ["TLC and the CommunityModules Json reader are trusted",
 
 TIERS = {  # sequences wanted, generator processes, traces per generator, parts (driver processes)
     "quick": dict(want=320, gens=8, per_gen=60, parts=16, mc="JournalMC_quick.cfg", allmax=3 * 32768 + 4096),
-    "thorough": dict(want=2000, gens=16, per_gen=170, parts=64, mc="JournalMC_thorough.cfg", allmax=5 * 32768 + 4096),
+    "thorough": dict(want=1400, gens=16, per_gen=120, parts=64, mc="JournalMC_thorough.cfg", allmax=5 * 32768 + 4096),
 }
 _re_seq = re.compile(r'<<\s*"VERIF-SEQ",\s*<<([^>]*)>>\s*>>', re.S)
 _re_gen = re.compile(r"The number of states generated: (\d+)")
